@@ -22,6 +22,11 @@ pub fn run(rep: &mut Report) {
         .to_string();
     // first: the stream whose REPORT oracle sees a producer that merges artifacts into one work item
     qfull::run(rep);
+    // GCC inputs through a scripted $GCOV: a gcov run that fails AFTER writing output (gcov 12, stale
+    // gcda) as the first gcno item of its consumer, and gcov 7 text output with an unparsable file
+    rep.rule.push_str("; gcovstub stream: gcno/gcda units handed to a scripted $GCOV (gcov 12.2 JSON output with runs that fail after writing output, role-swapped pairs of sets; gcov 7.5 text output with one unparsable file among several per unit), --threads 1/2/4, two argument orders: report == aggregate of the units that were not rejected");
+    let (nt, nj) = (rep.budget(2, 6), rep.budget(6, 6));
+    gcov_stub_stream(rep, 0xC02_57B, nt, nj, "C02");
     let mut rng = Rng::new(rep.seed ^ 0xC02);
     let n_sets = rep.budget(40, 25);
     let runs_per_set = 5;
@@ -374,6 +379,7 @@ pub fn replay(rep: &mut Report, case: &serde_json::Value) {
     if runall::replay(rep, case) { return; }
     if runpair::replay(rep, case) { return; }
     if qfull::replay(rep, case) { return; }
+    if gcov_stub_replay(rep, case, "C02") { return; }
     // re-run the recorded layout / thread count / order / perturbation seed
     let c = if case.get("case").is_some() { &case["case"] } else { case };
     let c = if c.get("context").is_some() { &c["context"]["case"] } else { c };
